@@ -156,6 +156,37 @@ pub fn data_byte(data: &[u8; NSTOR], slot: usize, p: u64) -> u8 {
     }
 }
 
+/// Whole content of the (mini) stream in `slot`, reconstructed from the image
+/// by an independent walk: one MiniFAT / root-chain walk per mini sector.
+pub const MAXB: usize = 320;
+pub fn stream_bytes(data: &[u8; NSTOR], slot: usize) -> ([u8; MAXB], usize) {
+    let eoff = soff(1) + DIRENT * slot;
+    let start = get32(&data[..], eoff + 116);
+    let len = get64(&data[..], eoff + 120) as usize;
+    let mut out = [0u8; MAXB];
+    assert!(len <= MAXB, "C01: stream longer than the harness expects");
+    let mfs = get32(&data[..], 60);
+    let rstart = get32(&data[..], soff(1) + 116);
+    let mut ms = start;
+    let mut j = 0;
+    while j * MINI < len && j < MAXB / MINI {
+        // mini sector ms lives in the root chain
+        let mut rs = rstart;
+        let mut hops = ms as usize / 8;
+        let mut g = 0;
+        while hops > 0 && g < 4 {
+            rs = get32(&data[..], soff(0) + 4 * rs as usize);
+            hops -= 1;
+            g += 1;
+        }
+        let base = soff(rs) + MINI * (ms as usize % 8);
+        out[j * MINI..(j + 1) * MINI].copy_from_slice(&data[base..base + MINI]);
+        ms = get32(&data[..], soff(mfs) + 4 * ms as usize);
+        j += 1;
+    }
+    (out, len)
+}
+
 /// C03 placement + chain length for slot 1 after an operation.
 fn check_placement(m: &MiniAllocator<FS>, slot: usize) {
     let dir = macc::directory(m);
@@ -194,10 +225,11 @@ fn check_other_untouched(m: &MiniAllocator<FS>, o_len: u64, before: &[u8; NSTOR]
     let o = &dacc::dir_entries(dir)[2];
     assert!(o.stream_len == o_len && o.start_sector == o_first, "C07: another stream's entry changed");
     // the other stream occupies one mini sector `o_first` in sector 3
-    let mut ok = true;
-    let mut p = 0u64;
-    while p < o_len && p < 64 {
-        ok &= image_byte(m, 2, p) == before[soff(3) + MINI * o_first as usize + p as usize];
+    let (now, nlen) = stream_bytes(&m.inner().data, 2);
+    let mut ok = nlen as u64 == o_len;
+    let mut p = 0usize;
+    while (p as u64) < o_len && p < 64 {
+        ok &= now[p] == before[soff(3) + MINI * o_first as usize + p];
         p += 1;
     }
     assert!(ok, "C07/C08: another stream's bytes changed");
@@ -225,16 +257,17 @@ macro_rules! stor_write_case {
             let e = &dacc::dir_entries(macc::directory(&m))[1];
             assert!(e.stream_len == new_len, "C01: stream length after write is not max(old, offset + n)");
             check_placement(&m, 1);
+            let (now, nlen) = stream_bytes(&m.inner().data, 1);
+            assert!(nlen as u64 == new_len, "C02: stream length in the image");
             let mut ok_w = true;
             let mut ok_k = true;
-            let mut p = 0u64;
-            while p < new_len {
-                let got = image_byte(&m, 1, p);
-                if p >= off && p < off + n as u64 {
-                    ok_w &= got == buf[(p - off) as usize];
+            let mut p = 0usize;
+            while p < new_len as usize {
+                if p as u64 >= off && (p as u64) < off + n as u64 {
+                    ok_w &= now[p] == buf[p - off as usize];
                 } else if p < 100 {
                     let ms = if p < 64 { 0 } else { 1 };
-                    ok_k &= got == before[soff(3) + MINI * ms + (p % 64) as usize];
+                    ok_k &= now[p] == before[soff(3) + MINI * ms + (p % 64)];
                 }
                 p += 1;
             }
@@ -308,16 +341,17 @@ macro_rules! stor_resize_case {
             let e = &dacc::dir_entries(macc::directory(&m))[1];
             assert!(e.stream_len == new, "C01/C06: length after set_len");
             check_placement(&m, 1);
+            let (now, nlen) = stream_bytes(&m.inner().data, 1);
+            assert!(nlen as u64 == new, "C02: stream length in the image");
             let mut kept = true;
             let mut zero = true;
-            let mut p = 0u64;
-            while p < new {
-                let got = image_byte(&m, 1, p);
-                if p < old {
+            let mut p = 0usize;
+            while p < new as usize {
+                if (p as u64) < old {
                     let ms = if p < 64 { 0usize } else { mfa[0] as usize };
-                    kept &= got == before[soff(3) + MINI * ms + (p % 64) as usize];
+                    kept &= now[p] == before[soff(3) + MINI * ms + (p % 64)];
                 } else {
-                    zero &= got == 0;
+                    zero &= now[p] == 0;
                 }
                 p += 1;
             }
